@@ -514,6 +514,8 @@ def run(ctx: RuleContext, p: Program) -> None:
     ctx.try_rule(rule_pop_value, p, 'POP-VALUE')
     from . import claimorder
     ctx.try_rule(claimorder.rule_splice_order, p, 'SPLICE-ORDER')
+    from . import round4
+    ctx.try_rule(round4.rule_replace_store, p, 'REPLACE-STORE')
     ctx.try_rule(rule_own_tree, p, 'OWN-TREE')
     from .c19 import rule_detach_gate
     ctx.try_rule(rule_detach_gate, p, 'DETACH-GATE')
